@@ -136,10 +136,7 @@ NewCap(e, s, isCount) ==     \* the capacity the mechanism predicts after the ca
   LET lens == [j \in 1..Len(e.prog) |-> Len(CodeOf(e.prog[j], s.opt))]
       m == IF isCount THEN (IF e.c < 2 THEN "A" ELSE "C") ELSE (IF s.fit >= 2 THEN "F" ELSE "A")
       c == IF isCount THEN e.c ELSE s.fit
-  IN IF s.ext THEN s.cap
-     ELSE LET g == {k \in 1..Len(e.steps) : e.steps[k].k \in {"grow", "growmoved"}} IN
-          IF e.nsteps <= 48 THEN Run(s.off, s.cap, lens, m, c, s.ext).cap
-          ELSE s.cap + Q * (((IF e.ret = 0 THEN e.off1 ELSE e.off0) + T - s.cap + Q - 1) \div Q)
+  IN IF s.ext THEN s.cap ELSE Run(s.off, s.cap, lens, m, c, s.ext).cap
 
 Report(why) == PrintT("BAD|" \o Ev.sid \o "|" \o why \o "|" \o ToString(l) \o "|" \o Ev.e \o "|")
 Advance(newinst, why) ==
@@ -176,7 +173,14 @@ Asm     == Ev.e = "Asm" /\ LET s == inst[Ev.i] IN
 Count   == Ev.e = "Count" /\ LET s == inst[Ev.i] IN
              Advance([inst EXCEPT ![Ev.i].off = Ev.off1, ![Ev.i].cap = IF Ev.inj THEN CapAfterFault(Ev, s) ELSE NewCap(Ev, s, TRUE)], JudgeCall(Ev, s, TRUE))
 
-Next == l <= Len(Tr) /\ (Create \/ Destroy \/ Reset \/ Fault \/ Other \/ BinFile \/ Skip2 \/ Opt \/ SetChunk \/ SetOffset \/ Probe \/ Exec \/ Asm \/ Count)
+\* C12 on the learned code table: the code of a line changes only with the option dimensions the line depends on
+OptRecOf(oi) == [mov |-> (oi \div 4), swap |-> ((oi \div 2) % 2), nobase |-> (oi % 2)]
+SameOn(dims, a, b) == \A d \in dims : OptRecOf(a)[d] = OptRecOf(b)[d]
+Sens    == Ev.e = "Sens" /\
+           Advance(inst, IF \E a \in 0..11, b \in 0..11 : SameOn({Ev.dims[k] : k \in 1..Len(Ev.dims)}, a, b) /\ CODES[Ev.key][a + 1] # CODES[Ev.key][b + 1]
+                         THEN "C12:option-dimension-changes-a-line-it-does-not-govern" ELSE "")
+
+Next == l <= Len(Tr) /\ (Sens \/ Create \/ Destroy \/ Reset \/ Fault \/ Other \/ BinFile \/ Skip2 \/ Opt \/ SetChunk \/ SetOffset \/ Probe \/ Exec \/ Asm \/ Count)
 Spec == Init /\ [][Next]_vars
 Accepted == TLCGet("stats").diameter = Len(Tr) /\ PrintT(<<"JUDGED", Len(Tr) - 1>>)
 =============================================================================
